@@ -26,6 +26,11 @@
 #define HP_MAXALLOC ((HP_MAXN + 1) * sizeof(void *))
 #endif
 
+/* ghost state of models/heap_realloc.c (the tracked buffer and its logical size): realloc updates it */
+extern void * g_heap_ra_buf;
+extern size_t g_heap_ra_size;
+#define HP_RA_GHOST   g_heap_ra_buf, g_heap_ra_size
+
 #define HP_EA(L)      ((struct elasticarray *)(L))
 #define HP_BUF(L)     ((void **)(HP_EA(L)->buf))
 #define HP_E(L, k)    (HP_BUF(L)[k])
